@@ -598,10 +598,8 @@ func allCellValuesOpt(p *Prog, v ssa.Value, followFields bool) []ssa.Value {
 				}
 			}
 			if cell != nil {
-				for _, ref := range *cell.Referrers() {
-					if st, ok := ref.(*ssa.Store); ok && st.Addr == ssa.Value(cell) {
-						rec(st.Val, d+1)
-					}
+				for _, st := range storesIntoCell(cell, 0) {
+					rec(st.Val, d+1)
 				}
 				return
 			}
@@ -708,4 +706,28 @@ func endsWithSlash(p *Prog, v ssa.Value, depth int) bool {
 		}
 	}
 	return false
+}
+
+// storesIntoCell: the stores into a local cell, those made by closures that capture it included.
+func storesIntoCell(cell ssa.Value, depth int) []*ssa.Store {
+	var out []*ssa.Store
+	if depth > 4 || cell.Referrers() == nil {
+		return nil
+	}
+	for _, ref := range *cell.Referrers() {
+		switch x := ref.(type) {
+		case *ssa.Store:
+			if x.Addr == cell {
+				out = append(out, x)
+			}
+		case *ssa.MakeClosure:
+			fn := x.Fn.(*ssa.Function)
+			for i, b := range x.Bindings {
+				if b == cell {
+					out = append(out, storesIntoCell(fn.FreeVars[i], depth+1)...)
+				}
+			}
+		}
+	}
+	return out
 }
